@@ -163,6 +163,7 @@ type channel struct {
 	untilWrite     bool
 	closed         int32
 	running        int32
+	sendFailed     int32        // the sender gave up after a transport failure: queued packets will not be sent
 	closeErr       atomic.Value // closeCause of the Close call that took effect
 	writeLock      sync.Mutex   // for sync write
 }
@@ -217,7 +218,15 @@ func (c *channel) Close(err error) {
 		// wait async send finished.
 		if nil != c.writeQueue {
 			var maxWaitNum int
-			for (c.untilWrite || maxWaitNum < 10) && atomic.LoadInt32(&c.running) != idle {
+			for c.untilWrite || maxWaitNum < 10 {
+				// queue first, flag second: a packet accepted before Close is either still queued or
+				// owned by the sender that took it, and a sender only goes idle after it has flushed.
+				// (reading the flag alone can see the sender idle between its release and re-acquire)
+				if 0 == len(c.writeQueue) || 0 != atomic.LoadInt32(&c.sendFailed) {
+					if idle == atomic.LoadInt32(&c.running) {
+						break
+					}
+				}
 				maxWaitNum++
 				time.Sleep(time.Millisecond * 100)
 			}
@@ -579,6 +588,7 @@ func (c *channel) writeOnce() {
 
 	defer func() {
 		if err := recover(); nil != err {
+			atomic.StoreInt32(&c.sendFailed, 1)
 			atomic.StoreInt32(&c.running, idle)
 			c.Close(AsException(err))
 		}
